@@ -452,7 +452,10 @@ class Engine:
                 v = self.cdiv(l, r, st)
             elif op == '%':
                 self.oblige(st, r != 0, 'divzero', 'integer divisor %s is non-zero' % IR.pp_expr(e.r))
-                v = l - r * self.cdiv(l, r, st)
+                if not z3.is_int_value(r) and self.entails_int(st, z3.And(l >= 0, r > 0)):
+                    v = self.sym_divmod(l, r, st)[1]
+                else:
+                    v = l - r * self.cdiv(l, r, st)
             elif op == '>>':
                 if not z3.is_int_value(r): raise E2Error('shift by non-constant')
                 v = l / z3.IntVal(2 ** r.as_long())
@@ -470,17 +473,40 @@ class Engine:
         if self.entails_int(st, z3.And(l >= 0, r > 0)):
             if z3.is_int_value(r): return l / r
             # symbolic divisor: quotient and remainder by their defining equation (keeps the query out of z3's div axioms)
-            key = (l.get_id(), r.get_id())
-            self._divs = getattr(self, '_divs', {})
-            if key in self._divs and self._divs[key][0].eq(l) and self._divs[key][1].eq(r):
-                return self._divs[key][2]
-            q = fresh('quot', z3.IntSort()); m = fresh('rem', z3.IntSort())
-            st.assume(z3.And(l == r * q + m, m >= 0, m < r, q >= 0, q <= l))
-            self._divs[key] = (l, r, q)
-            return q
+            return self.sym_divmod(l, r, st)[0]
         return z3.If(z3.And(l >= 0, r > 0), l / r,
                      z3.If(z3.And(l < 0, r > 0), -((-l) / r),
                            z3.If(z3.And(l >= 0, r < 0), -(l / (-r)), (-l) / (-r))))
+
+    def sym_divmod(self, l, r, st):
+        """quotient and remainder of l by a symbolic divisor r as fresh integers with l == r*q + m, 0 <= m < r
+        (stated for l >= 0, r > 0); one pair per syntactic (l, r), shared by code and clauses"""
+        self._divs = getattr(self, '_divs', {})
+        self._div_terms = getattr(self, '_div_terms', {})
+        ls, rs = z3.simplify(l), z3.simplify(r)
+        key = (ls.sexpr(), rs.sexpr())
+        if key not in self._divs:
+            q = fresh('quot', z3.IntSort()); m = fresh('rem', z3.IntSort())
+            pair = []
+            # div/mod are functions of the dividend: congruence and the successor rule against every other dividend
+            # with the same divisor (valid facts; they spare the solver the nonlinear uniqueness argument)
+            for (l2s, r2s), (q2, m2, _, _) in self._divs.items():
+                if r2s != key[1]: continue
+                l2 = self._div_terms[(l2s, r2s)][0]
+                ok = z3.And(ls >= 0, l2 >= 0, rs > 0)
+                pair.append(z3.Implies(z3.And(ok, ls == l2), z3.And(q == q2, m == m2)))
+                pair.append(z3.Implies(z3.And(ok, ls == l2 + 1), z3.If(m2 == rs - 1, z3.And(q == q2 + 1, m == 0), z3.And(q == q2, m == m2 + 1))))
+                pair.append(z3.Implies(z3.And(ok, l2 == ls + 1), z3.If(m == rs - 1, z3.And(q2 == q + 1, m2 == 0), z3.And(q2 == q, m2 == m + 1))))
+                pair.append(z3.Implies(z3.And(ok, ls <= l2), q <= q2))
+                pair.append(z3.Implies(z3.And(ok, l2 <= ls), q2 <= q))
+            self._div_terms = getattr(self, '_div_terms', {})
+            self._div_terms[key] = (ls, rs)
+            self._divs[key] = (q, m, z3.Implies(z3.And(ls >= 0, rs > 0), z3.And(ls == rs * q + m, m >= 0, m < rs, q >= 0)), pair)
+        q, m, ax, pair = self._divs[key]
+        have = set(h.get_id() for h in st.pc[-120:] if not isinstance(h, Quant))
+        for a in [ax] + pair:
+            if a.get_id() not in have: st.pc.append(a)
+        return q, m
 
     def to_real(self, v):
         if z3.is_bool(v): return z3.If(v, z3.RealVal(1), z3.RealVal(0))
@@ -826,9 +852,11 @@ class Engine:
             if z3.is_bool(r) and not z3.is_bool(l): r = z3.If(r, 1, 0)
             l, r = self.unify(l, r)
             if op == '/':
-                if z3.is_int(l) and z3.is_int(r): return l / r
+                if z3.is_int(l) and z3.is_int(r):
+                    return l / r if z3.is_int_value(z3.simplify(r)) else self.sym_divmod(l, r, st)[0]
                 return self.to_real(l) / self.to_real(r)
-            if op == '%': return l % r
+            if op == '%':
+                return l % r if z3.is_int_value(z3.simplify(r)) else self.sym_divmod(l, r, st)[1]
             return {'+': lambda: l + r, '-': lambda: l - r, '*': lambda: l * r, '<': lambda: l < r, '<=': lambda: l <= r,
                     '>': lambda: l > r, '>=': lambda: l >= r, '==': lambda: l == r, '!=': lambda: l != r}[op]()
         if k in ('forall', 'exists'):
